@@ -330,7 +330,7 @@ def engine_vcat(c, *arrays):
     kind = {"np": "a1", "cs": "m", "abs": "vec"}[c.dialect]
     if len(arrays) == 1 and isinstance(arrays[0], _SymStar):
         seq = arrays[0].seq
-        probe = seq.elem(T.fresh("vcp", T.INT))
+        probe = seq.elem(cur().fresh_index(seq.n, "vcp"))
         if isinstance(probe, Arr) and not probe.is_scalar and not (T.is_const(probe.n) and T.cval(probe.n) == 1):
             raise Unsupported("vcat of a symbolic number of vectors")
         return A.concat(c.dialect, seq, kind)
